@@ -500,17 +500,18 @@ func findLoops(fn *ssa.Function) []*loopInfo {
 }
 
 type funcCtx struct {
-	fn         *ssa.Function
-	loops      []*loopInfo
-	inLoop     map[*ssa.BasicBlock]*loopInfo // innermost unrolled loop containing block
-	cutHdr     map[*ssa.BasicBlock]*loopInfo
-	cuts       map[*ssa.BasicBlock]*Clause
-	clauses    []*Clause
-	top        bool
-	atcallSeen map[*Clause]bool
-	entryGuard *Term
-	rets       []retPoint
-	path       string
+	fn          *ssa.Function
+	loops       []*loopInfo
+	inLoop      map[*ssa.BasicBlock]*loopInfo // innermost unrolled loop containing block
+	cutHdr      map[*ssa.BasicBlock]*loopInfo
+	cuts        map[*ssa.BasicBlock]*Clause
+	clauses     []*Clause
+	top         bool
+	atcallSeen  map[*Clause]bool
+	atcallReach map[ssa.Instruction]bool
+	entryGuard  *Term
+	rets        []retPoint
+	path        string
 }
 
 // runFunc symbolically executes fn from state st under guard. Returns merged results/state/guard at return.
@@ -519,7 +520,7 @@ func (x *Exec) runFunc(fn *ssa.Function, args []Value, bindings []Value, st *Sta
 		x.VC.Warnf("no body for %s: results havocked", fn.String())
 		return nil, st, guard
 	}
-	fc := &funcCtx{fn: fn, clauses: clauses, top: top, entryGuard: guard, atcallSeen: map[*Clause]bool{}, inLoop: map[*ssa.BasicBlock]*loopInfo{}, cutHdr: map[*ssa.BasicBlock]*loopInfo{}, cuts: map[*ssa.BasicBlock]*Clause{}}
+	fc := &funcCtx{fn: fn, clauses: clauses, top: top, entryGuard: guard, atcallSeen: map[*Clause]bool{}, atcallReach: map[ssa.Instruction]bool{}, inLoop: map[*ssa.BasicBlock]*loopInfo{}, cutHdr: map[*ssa.BasicBlock]*loopInfo{}, cuts: map[*ssa.BasicBlock]*Clause{}}
 	fc.loops = findLoops(fn)
 	for _, l := range fc.loops {
 		for _, c := range clauses {
